@@ -23,6 +23,9 @@ func NewRewritersFromConfig(rewriterConfigs []bconfig.LogRewriterConfigHolder, s
 func VerifyRewriterConfigs(rewriterConfigs []bconfig.LogRewriterConfigHolder, schema base.LogSchema, header string) error {
 	lastI := len(rewriterConfigs) - 1
 	for i, rwc := range rewriterConfigs {
+		if rwc.Value == nil {
+			return fmt.Errorf("%s[%d] is unspecified", header, i)
+		}
 		err := rwc.Value.VerifyConfig(schema, i < lastI)
 		if err != nil {
 			return fmt.Errorf("%s[%d] %s: %w", header, i, rwc.Location, err)
